@@ -294,6 +294,18 @@ pub struct KeyRec {
 
 pub const POISON: u64 = 0x8123_4567_89ab_cdef;
 
+/// A waveform produced inside a run together with a canonical history (load, setters, one
+/// synthesis) that reaches the same voice set, condition and labels from scratch. The canonical
+/// history is executed in a pristine process; its output must be bit-identical (C03).
+#[derive(Clone, Debug)]
+pub struct RefKey {
+    pub kind: u8, // 0 waveform
+    pub hash: u64,
+    pub len: usize,
+    pub at_op: usize,
+    pub canonical: Vec<TOp>,
+}
+
 #[derive(Default, Clone, Debug)]
 pub struct Stats {
     pub ops: u64,
@@ -339,6 +351,8 @@ pub struct Sim<'a> {
     /// digest of everything observed (waveform hashes, return values): determinism check
     pub digest: u64,
     pub nontrivial: bool,
+    /// candidates for the fresh-process reference (the most recent distinct keys)
+    pub refs: Vec<RefKey>,
 }
 
 pub const MAX_ENGINES: usize = 6;
@@ -382,6 +396,7 @@ impl<'a> Sim<'a> {
             trace_hash: 0,
             digest: 0,
             nontrivial: false,
+            refs: Vec::new(),
         }
     }
 
@@ -403,6 +418,44 @@ impl<'a> Sim<'a> {
         }
         let _ = write!(s, "|va{:?}|{}|{}", e.model.vol_arg, form.name(), utt.to_text());
         s
+    }
+
+    /// Shortest history that reaches this engine's voice set and observable condition from a fresh
+    /// load, followed by one synthesis of `utt`.
+    pub fn canonical_ops(slot: &EngineSlot, utt: &Utt, form: Form) -> Vec<TOp> {
+        let m = &slot.model;
+        let mut ops = vec![TOp { task: 0, op: Op::Load { e: 0, voices: slot.voices.clone(), via_files: false } }];
+        let mut set = |s: Setter| ops.push(TOp { task: 0, op: Op::Set { e: 0, s } });
+        set(Setter::SamplingFrequency(m.sf));
+        set(Setter::Fperiod(m.fp));
+        if let Some(v) = m.vol_arg {
+            set(Setter::Volume(f64::from_bits(v)));
+        }
+        for i in 0..m.nstream() {
+            set(Setter::Msd(i, m.msd[i]));
+            set(Setter::GvWeight(i, m.gvw[i]));
+        }
+        set(Setter::Align(m.align));
+        set(Setter::Speed(m.speed));
+        set(Setter::Alpha(m.alpha));
+        set(Setter::Beta(m.beta));
+        set(Setter::HalfTone(m.half));
+        // weights: only those that were set (they have an exact sum of 1; the 1/n defaults may not)
+        let avg = 1.0f64 / m.nvoices as f64;
+        let is_default = |w: &Vec<f64>| w.iter().all(|x| x.to_bits() == avg.to_bits());
+        if !is_default(&m.wdur) {
+            ops.push(TOp { task: 0, op: Op::SetW { e: 0, which: Which::Dur, w: m.wdur.clone() } });
+        }
+        for i in 0..m.nstream() {
+            if !is_default(&m.wpar[i]) {
+                ops.push(TOp { task: 0, op: Op::SetW { e: 0, which: Which::Par(i), w: m.wpar[i].clone() } });
+            }
+            if !is_default(&m.wgv[i]) {
+                ops.push(TOp { task: 0, op: Op::SetW { e: 0, which: Which::Gv(i), w: m.wgv[i].clone() } });
+            }
+        }
+        ops.push(TOp { task: 0, op: Op::Synth { e: 0, utt: utt.clone(), form } });
+        ops
     }
 
     fn labels_call<T>(
@@ -959,6 +1012,17 @@ impl<'a> Sim<'a> {
                     Err(_) => "failed_call:panic",
                 });
                 return Ok(());
+            }
+            if let Ok(Ok(w)) = &r {
+                let slot = self.engines[e].as_ref().unwrap();
+                let rk = RefKey { kind: 0, hash: hash_f64s(w), len: w.len(), at_op: self.op_index, canonical: Self::canonical_ops(slot, utt, form) };
+                // keep the two most recent candidates with distinct canonical histories
+                if self.refs.last().map(|l| l.canonical != rk.canonical).unwrap_or(true) {
+                    self.refs.push(rk);
+                    if self.refs.len() > 2 {
+                        self.refs.remove(0);
+                    }
+                }
             }
             let out = match r {
                 Ok(Ok(w)) => Outcome::Wave { hash: hash_f64s(&w), wave: Rc::new(w) },
